@@ -67,7 +67,7 @@ def support(n):
         if n.op == 'var': n._sup = frozenset((n.args[0],))
         else:
             s = frozenset()
-            for a in n.args:
+            for a in (n.args[1] if n.op == 'Raw' else n.args):
                 if isinstance(a, N): s = s | support(a)
             n._sup = s
     return n._sup
